@@ -332,6 +332,22 @@ def check_defined(chk, ctx, c, nseq, nsub, F):
         res[name] = bool(np.all(np.isfinite(v)))
         if not res[name] or v.min() < -1e-12 or v.max() > 1 + 1e-9:
             chk.fail('%s:nonfinite' % name, '%s returns %r for P(depth 0) = %r' % (name, v.ravel()[:8].tolist(), c[0]), inp)
+            continue
+        # C18_deep_depth on the real code: no mass below depth D >= 2
+        D = min(i for i, x in enumerate(c) if x != 0)
+        if D >= 2 and sum(Fraction(x) for x in c) == 1:
+            two = 2.0 ** -D
+            if name == 'probability_of_no_call':
+                lim = (1 + np.arange(nseq + 1) * D) * two
+                if np.any(v[1:] > lim[1:] * (1 + 1e-9) + 1e-300):          # relative: the no-call probabilities are sums of non-negative products, no cancellation
+                    af = 1 + int(np.argmax(v[1:] - lim[1:]))
+                    chk.fail('probability_of_no_call:deep-bound', 'no depth below %d has mass, yet the no-call probability of allele count %d is %.3g > (1 + af*D) 2^-D = %.3g' % (D, af, float(v[af]), float(lim[af])), inp)
+            elif name == 'calling_error_matrix':
+                worst = float(np.max(1 - np.diag(v)))
+                if worst > nsub * 2 * two * (1 + 1e-9) + 1e-12:          # 1e-12: rounding of a row of <= nsub+1 accumulated products
+                    chk.fail('calling_error_matrix:deep-bound', 'no depth below %d has mass, yet a diagonal entry of the calling-error matrix is %.3g below 1 (> nsub * 2 * 2^-D = %.3g)' % (D, worst, nsub * 2 * two), inp)
+            elif abs(float(v) - 1) > 1e-12:
+                chk.fail('probability_enough_individuals_covered:deep', 'P(depth 0) = 0 but P(enough covered) = %r' % float(v), inp)
     if have_driver(ctx):
         out = ctx['driver'].ask('lp_defined %s %d %d' % (fmt_list(c), nseq, nsub))
         mine = 'ok %d,%d,%d' % (int(res.get('probability_of_no_call', False)), int(res.get('calling_error_matrix', False)), int(res.get('probability_enough_individuals_covered', False)))
@@ -496,6 +512,27 @@ def check_heterr(chk, ctx, c):
         out = ctx['driver'].ask('lp_heterr %s' % fmt_list(c))
         if out.startswith('ok ') and abs(pf(out[3:]) - e) <= RTOL: chk.k_ok('heterr')
         else: chk.k_bad('heterr', inp, e, out, None)
+
+def check_axis_dev(chk, ctx, c, nseq, nsub, F):
+    """C18_deep_axis on the real code, any coverage: every row of (prob_enough * projection_matrix) @ calling_error_matrix is
+    within (1 - prob_enough) + 2 * n_sub * prob_het_err (l1) of the row of projection_matrix"""
+    LP = LPmod(ctx)
+    inp = dict(kind='axis-dev', cov=c, nseq=nseq, nsub=nsub, F=F)
+    try:
+        P = np.array(LP.projection_matrix(nseq, nsub, F), dtype=float)
+        H = np.array(LP.calling_error_matrix(covarr(c), nsub, F), dtype=float)
+        pe = float(LP.probability_enough_individuals_covered(covarr(c), nseq, nsub))
+    except Exception as e:
+        chk.fail('low_cov_precalc:axis:raises:%s' % type(e).__name__, 'raises %r' % (e,), inp); return
+    tail = sum(fr(v) for v in c[1:])
+    e = float(2 * sum(fr(c[d]) / tail * Fraction(1, 2 ** d) for d in range(1, len(c))))
+    chk.l3(('axis-dev', nseq, nsub == nseq, F == 0, c[0] == 0))
+    dev = np.abs((pe * P).dot(H) - P).sum(axis=1)
+    bound = (1 - pe) + 2 * nsub * e
+    if not np.all(np.isfinite(dev)) or float(dev.max()) > bound + RTOL:
+        i = int(np.argmax(dev))
+        chk.fail('low_cov_precalc:axis-deviation', 'row %d of (prob_enough*projection_matrix).calling_error_matrix is at l1 distance %.6g from the row of projection_matrix, '
+                 'more than (1 - prob_enough) + 2*nsub*prob_het_err = %.6g (prob_enough=%.6g, prob_het_err=%.6g)' % (i, float(dev[i]), bound, pe, e), inp)
 
 def exact_nocall(c, g):
     """P(at most one alternative read in total) for genotype vector g: product distribution, by convolution truncated at 2"""
@@ -759,7 +796,8 @@ def deep_l1_check(chk, ctx, case, model, out, inp, tag=''):
         return
     l1 = float(np.abs(odata - ref).sum())
     lim = float(bound) * tot + RTOL * scale * odata.size
-    chk.stats['deep_l1_max_ratio'] = max(chk.stats.get('deep_l1_max_ratio', 0.0), l1 / max(float(bound) * tot, 1e-300))
+    if tot > 0:
+        chk.stats['deep_l1_max_ratio'] = max(chk.stats.get('deep_l1_max_ratio', 0.0), l1 / (float(bound) * tot))     # observed l1 distance / proved bound
     if not np.isfinite(l1) or l1 > lim:
         chk.fail('make_low_pass_func:deep-coverage:l1', '%severy individual has depth >= %d, sim_threshold=%r: the corrected model is at l1 distance %.3g from the model '
                  'projected with projection_matrix, more than the proved bound ((1 + max nseq*D) + %d*4*max nsub) 2^-D * total = %.3g' % (tag, D, case['thr'], l1, d, lim), inp)
@@ -1412,6 +1450,8 @@ def run(chk, ctx):
         check_callmat(chk, ctx, c, nsub, F)
         check_nocall(chk, ctx, c, nseq, F)
         check_enough(chk, ctx, c, nseq, nsub)
+        if it % 2 == 0 and not (0 < F < TINY_F):
+            check_axis_dev(chk, ctx, c, nseq, nsub, F)
     check_part_cache(chk, ctx, dict(kind='cache-family', family='helpers'), 'helper-functions')
     # ---- definedness: exactly zero mass at depth 0 / 1 (no 0 ** -1, no nan), every partition of every allele count
     for it in range(60 if quick else 400):
@@ -1480,6 +1520,8 @@ def replay(chk, ctx, data):
         check_sim_deep(chk, ctx, case_from_json(inp))
     elif kind == 'subsample':
         check_subsample(chk, ctx, inp)
+    elif kind == 'axis-dev':
+        check_axis_dev(chk, ctx, [float(v) for v in inp['cov']], int(inp['nseq']), int(inp['nsub']), float(inp['F']))
     elif kind == 'defined':
         check_defined(chk, ctx, [float(v) for v in inp['cov']], int(inp['nseq']), int(inp['nsub']), float(inp['F']))
     elif kind == 'projmix0':
